@@ -424,7 +424,7 @@ pub fn run_session(env: &mut Env) -> Outcome {
     let base_hist = s.world.server.borrow().history.len();
     let n = 3 + ctxrc.borrow_mut().choose("n_events", 6) as usize;
     let fault_at_call = ctxrc.borrow_mut().choose("fault_at_call", n as u64) as usize;
-    let fault_kind = ctxrc.borrow_mut().choose("fault_kind", 3);
+    let fault_kind = ctxrc.borrow_mut().choose("fault_kind", 5);
     let mut oks = 0usize;
     let mut errs = 0usize;
     let mut log: Vec<String> = Vec::new();
@@ -436,6 +436,9 @@ pub fn run_session(env: &mut Env) -> Outcome {
             match fault_kind {
                 0 => { c.write_fail_at = Some(at); c.write_fail_transient = true; c.write_fail_kind = std::io::ErrorKind::Other; }
                 1 => { c.write_fail_at = Some(at); c.write_fail_transient = true; c.write_fail_kind = std::io::ErrorKind::WouldBlock; }
+                // the kinds a closed or half-closed socket reports: whatever the link makes of them, `Ok` must mean "sent"
+                3 => { c.write_fail_at = Some(at); c.write_fail_transient = true; c.write_fail_kind = std::io::ErrorKind::BrokenPipe; }
+                4 => { c.write_fail_at = Some(at); c.write_fail_transient = true; c.write_fail_kind = std::io::ErrorKind::NotConnected; }
                 _ => { c.zero_write = 16; }
             }
         }
